@@ -19,6 +19,15 @@ func TestVerif_C04_OnTheWire(t *testing.T) {
 	gen := func(rt *rapid.T) rigScenario {
 		sc := c03Gen(rt)
 		sc.Cfg.Plain = false
+		if rapid.IntRange(0, 2).Draw(rt, "limited") == 0 {
+			// a rate-limited user on the server side: its sends - closing notices included - wait for their allowance,
+			// so that several of them are in progress at the same time; then the server closes its streams in a burst
+			sc.Cfg.RxRate, sc.Cfg.TxRate = 1<<30, int64(rapid.SampledFrom([]int{300, 2000, 20000}).Draw(rt, "txrate"))
+			for i := 0; i < 4; i++ {
+				sc.Ops = append(sc.Ops, rigOp{K: "close", Side: sideS, S: i})
+			}
+			sc.Ops = append(sc.Ops, rigOp{K: "sleep", D: 120000})
+		}
 		sc.Ops = append(sc.Ops, rigOp{K: "sclose", Side: rapid.IntRange(0, 1).Draw(rt, "closingside")})
 		return sc
 	}
@@ -72,6 +81,9 @@ func TestVerif_C04_OnTheWire(t *testing.T) {
 				res.Labels = append(res.Labels, "session-closing-notice-on-the-wire")
 			}
 			res.Labels = append(res.Labels, "method="+vMethodNames[sc.Cfg.Method])
+			if sc.Cfg.TxRate > 0 {
+				res.Labels = append(res.Labels, "rate-limited-sender:closes-in-a-burst")
+			}
 		})
 		if verr == nil && berr != nil {
 			verr = fmt.Errorf("harness: bubble: %v", berr)
